@@ -45,6 +45,7 @@ struct Live {
     raw_size: usize,
     raw_align: usize,
     pad: usize,
+    owner: u32,
 }
 
 unsafe impl Send for Live {}
@@ -70,6 +71,16 @@ struct Ledger {
 }
 
 static LEDGER: Mutex<Option<Ledger>> = Mutex::new(None);
+static CURRENT_ID: std::sync::atomic::AtomicU32 = std::sync::atomic::AtomicU32::new(0);
+
+/// The allocator instance the state recipes hand to the collections they build (see `set_current_id`).
+pub fn current() -> CkAlloc {
+    CkAlloc { id: CURRENT_ID.load(std::sync::atomic::Ordering::SeqCst) }
+}
+/// Collections built from now on get their own allocator instance `id`.
+pub fn set_current_id(id: u32) {
+    CURRENT_ID.store(id, std::sync::atomic::Ordering::SeqCst);
+}
 
 fn with<R>(f: impl FnOnce(&mut Ledger) -> R) -> R {
     let mut g = match LEDGER.lock() {
@@ -98,8 +109,16 @@ fn with<R>(f: impl FnOnce(&mut Ledger) -> R) -> R {
     f(g.as_mut().unwrap())
 }
 
-#[derive(Clone, Copy, Default, Debug)]
-pub struct CkAlloc;
+/// A handle on the process-global ledger. `id` distinguishes allocator *instances*: a block must be
+/// returned through a handle with the id it was obtained from (a collection keeps, clones and frees
+/// through its own allocator; handing a block to another instance is a violation).
+#[derive(Clone, Copy, Default, Debug, PartialEq, Eq)]
+pub struct CkAlloc {
+    pub id: u32,
+}
+/// The default instance, usable as a value exactly like a unit struct: `HashMap::new_in(CkAlloc)`.
+#[allow(non_upper_case_globals)]
+pub const CkAlloc: CkAlloc = CkAlloc { id: 0 };
 
 #[derive(Clone, Copy, Debug, Default, PartialEq, Eq)]
 pub struct Counters {
@@ -303,7 +322,7 @@ unsafe impl Allocator for CkAlloc {
                 std::ptr::write_bytes(raw.add(pad + size), CANARY, RED);
                 (
                     raw.add(pad),
-                    Live { size, align, raw, raw_size, raw_align, pad },
+                    Live { size, align, raw, raw_size, raw_align, pad, owner: self.id },
                 )
             } else {
                 let p = if size == 0 {
@@ -314,7 +333,7 @@ unsafe impl Allocator for CkAlloc {
                 if p.is_null() {
                     return Err(AllocError);
                 }
-                (p, Live { size, align, raw: p, raw_size: size, raw_align: align, pad: 0 })
+                (p, Live { size, align, raw: p, raw_size: size, raw_align: align, pad: 0, owner: self.id })
             }
         };
         with(|l| {
@@ -349,6 +368,12 @@ unsafe impl Allocator for CkAlloc {
                 Some(b) => {
                     l.deallocs += 1;
                     l.live_bytes -= b.size;
+                    if b.owner != self.id {
+                        crate::viol!(
+                            "ckalloc: a block obtained from allocator instance {} (size {} align {}) is returned to allocator instance {}",
+                            b.owner, b.size, b.align, self.id
+                        );
+                    }
                     if b.size != size || b.align != align {
                         crate::viol!(
                             "ckalloc: deallocate with a different layout: allocated size {} align {}, freed with size {} align {}",
